@@ -83,10 +83,11 @@ theorem all_plain_wf {ls : List Lit} (h : ls.all plainLit = true) : ls.all (wfLi
 theorem zoneName_plain (z : Bool) : (zoneName z).all nonSpecial = true ∧ flushText (zoneName z) = [.text (zoneName z)] := by
   cases z <;> exact ⟨by decide, rfl⟩
 
-/-- first character of a printed escape or formatter -/
+/-- first character of a printed escape or formatter; only an escape can start with `)` -/
 theorem showPat_head (bits : Nat) (inArg : Bool) (p : Pat) (rest : List Char)
     (hwf : wfPat bits inArg p = true) (hnp : plainChar p = none) :
-    ∃ hd tl, showPat p ++ rest = hd :: tl ∧ isSpecial hd = true ∧ (inArg = true → hd ≠ ')') := by
+    ∃ hd tl, showPat p ++ rest = hd :: tl ∧ isSpecial hd = true ∧
+      (hd ≠ ')' ∨ ∃ l, p = .lit l ∧ l.esc ≠ .plain) := by
   cases p with
   | lit l =>
     rw [wfPat_lit] at hwf
@@ -94,11 +95,23 @@ theorem showPat_head (bits : Nat) (inArg : Bool) (p : Pat) (rest : List Char)
       intro he; simp [plainChar, he] at hnp
     rw [showPat_lit]
     -- the first component is not needed here; any parser instance does
-    exact (next_escape asciiClass Profile.debug64 inArg l rest hwf he).2
-  | leaf k long spec => exact ⟨'{', _, by rw [showPat_leaf]; rfl, by decide, fun _ => by decide⟩
-  | date long args spec => exact ⟨'{', _, by rw [showPat_date]; rfl, by decide, fun _ => by decide⟩
-  | mdc long key dflt spec => exact ⟨'{', _, by rw [showPat_mdc]; rfl, by decide, fun _ => by decide⟩
-  | group k long body spec => exact ⟨'{', _, by rw [showPat_group]; rfl, by decide, fun _ => by decide⟩
+    obtain ⟨hd, tl, h1, h2⟩ := (next_escape asciiClass Profile.debug64 inArg l rest hwf he).2
+    exact ⟨hd, tl, h1, h2, Or.inr ⟨l, rfl, he⟩⟩
+  | leaf k long spec => exact ⟨'{', _, by rw [showPat_leaf]; rfl, by decide, Or.inl (by decide)⟩
+  | date long args spec => exact ⟨'{', _, by rw [showPat_date]; rfl, by decide, Or.inl (by decide)⟩
+  | mdc long key dflt spec => exact ⟨'{', _, by rw [showPat_mdc]; rfl, by decide, Or.inl (by decide)⟩
+  | group k long body spec => exact ⟨'{', _, by rw [showPat_group]; rfl, by decide, Or.inl (by decide)⟩
+
+theorem noParen_specTail (spec : Option FormatSpec) (rest : List Char) :
+    NoParenHead (showSpec spec ++ '}' :: rest) := by
+  obtain ⟨t, tl, h, ht⟩ := specTail_head spec rest
+  rw [h]
+  intro x hx
+  cases hx
+  rcases ht with h | h <;> cases h
+
+theorem noParen_open (x : List Char) : NoParenHead ('(' :: x) := by
+  intro t h; cases h
 
 theorem plainChar_some {p : Pat} {c : Char} (h : plainChar p = some c) :
     ∃ l, p = .lit l ∧ l.esc = .plain ∧ l.c = c := by
@@ -114,7 +127,8 @@ theorem plainChar_some {p : Pat} {c : Char} (h : plainChar p = some c) :
 
 mutual
 /-- `next` on a printed escape or formatter followed by anything -/
-theorem next_nonplain (cc : CharClass) (hcc : CCAscii cc) (P : Profile) (hus : P.underscoreNames = true) :
+theorem next_nonplain (cc : CharClass) (hcc : CCAscii cc) (P : Profile) (hus : P.underscoreNames = true)
+    (hP : P.doubledCloseParen = true) :
     ∀ (p : Pat) (inArg : Bool), wfPat P.wordBits inArg p = true → plainChar p = none →
       ∀ rest : List Char, next cc P (showPat p ++ rest) = .ok (some (pieceOf p)) rest
   | .lit l, inArg, hwf, hnp, rest => by
@@ -155,9 +169,10 @@ theorem next_nonplain (cc : CharClass) (hcc : CCAscii cc) (P : Profile) (hus : P
     | some fz =>
       obtain ⟨f, z⟩ := fz
       simp only at hargs
-      have hb1 : ∀ tail, argB cc P (showLits f ++ ')' :: tail) [] = .ok (litPieces [] f) tail := by
-        intro tail
-        simpa using argB_lits cc P f [] tail [] hargs (by simp)
+      have hb1 : ∀ tail, NoParenHead tail →
+          argB cc P (showLits f ++ ')' :: tail) [] = .ok (litPieces [] f) tail := by
+        intro tail htail
+        simpa using argB_lits cc P hP f [] tail [] hargs (by simp) htail
       cases z with
       | none =>
         have hre : ('{' :: (dateName long ++ showDateArgs (some (f, none)) ++ showSpec spec ++ ['}'])) ++ rest =
@@ -165,7 +180,7 @@ theorem next_nonplain (cc : CharClass) (hcc : CCAscii cc) (P : Profile) (hus : P
           simp [showDateArgs]
         rw [hre]
         refine next_named cc hcc P _ '(' _ _ spec rest (isName_date cc hcc P long) (Or.inr (Or.inr rfl)) ?_ hspec
-        rw [argsL_arg cc P _ _ [] _ (hb1 _)]
+        rw [argsL_arg cc P _ _ [] _ (hb1 _ (noParen_specTail spec rest))]
         exact argsL_done cc P spec rest _
       | some z =>
         obtain ⟨hz1, hz2⟩ := zoneName_plain z
@@ -175,10 +190,11 @@ theorem next_nonplain (cc : CharClass) (hcc : CCAscii cc) (P : Profile) (hus : P
           simp [showDateArgs]
         rw [hre]
         refine next_named cc hcc P _ '(' _ _ spec rest (isName_date cc hcc P long) (Or.inr (Or.inr rfl)) ?_ hspec
-        rw [argsL_arg cc P _ _ [] _ (hb1 _)]
+        rw [argsL_arg cc P _ _ [] _ (hb1 _ (noParen_open _))]
         have hb2 : argB cc P (zoneName z ++ ')' :: (showSpec spec ++ '}' :: rest)) [] =
             .ok [.text (zoneName z)] (showSpec spec ++ '}' :: rest) := by
           simpa [hz2] using argB_plain cc P (zoneName z) (showSpec spec ++ '}' :: rest) [] hz1
+            (noParen_specTail spec rest)
         rw [argsL_arg cc P _ _ _ _ hb2]
         simpa [dateArgPieces, zonePieces] using argsL_done cc P spec rest [litPieces [] f, [.text (zoneName z)]]
   | .mdc long key dflt spec, inArg, hwf, _, rest => by
@@ -186,10 +202,10 @@ theorem next_nonplain (cc : CharClass) (hcc : CCAscii cc) (P : Profile) (hus : P
     simp only [Bool.and_eq_true] at hwf
     obtain ⟨⟨⟨_, hkey⟩, hdflt⟩, hspec⟩ := hwf
     rw [showPat_mdc, pieceOf_mdc]
-    have hb : ∀ (ls : List Lit), ls.all (wfLit true) = true → ∀ tail,
+    have hb : ∀ (ls : List Lit), ls.all (wfLit true) = true → ∀ tail, NoParenHead tail →
         argB cc P (showLits ls ++ ')' :: tail) [] = .ok (litPieces [] ls) tail := by
-      intro ls hls tail
-      simpa using argB_lits cc P ls [] tail [] hls (by simp)
+      intro ls hls tail htail
+      simpa using argB_lits cc P hP ls [] tail [] hls (by simp) htail
     cases dflt with
     | none =>
       have hre : ('{' :: (mdcName long ++ ('(' :: showLits key ++ [')']) ++ showDflt none ++ showSpec spec ++ ['}'])) ++ rest =
@@ -197,7 +213,7 @@ theorem next_nonplain (cc : CharClass) (hcc : CCAscii cc) (P : Profile) (hus : P
         simp [showDflt]
       rw [hre]
       refine next_named cc hcc P _ '(' _ _ spec rest (isName_mdc cc hcc P long) (Or.inr (Or.inr rfl)) ?_ hspec
-      rw [argsL_arg cc P _ _ [] _ (hb key hkey _)]
+      rw [argsL_arg cc P _ _ [] _ (hb key hkey _ (noParen_specTail spec rest))]
       simpa [dfltPieces] using argsL_done cc P spec rest [litPieces [] key]
     | some d =>
       simp only [Bool.and_eq_true] at hdflt
@@ -207,8 +223,8 @@ theorem next_nonplain (cc : CharClass) (hcc : CCAscii cc) (P : Profile) (hus : P
         simp [showDflt]
       rw [hre]
       refine next_named cc hcc P _ '(' _ _ spec rest (isName_mdc cc hcc P long) (Or.inr (Or.inr rfl)) ?_ hspec
-      rw [argsL_arg cc P _ _ [] _ (hb key hkey _)]
-      rw [argsL_arg cc P _ _ _ _ (hb d hdflt.2 _)]
+      rw [argsL_arg cc P _ _ [] _ (hb key hkey _ (noParen_open _))]
+      rw [argsL_arg cc P _ _ _ _ (hb d hdflt.2 _ (noParen_specTail spec rest))]
       simpa [dfltPieces] using argsL_done cc P spec rest [litPieces [] key, litPieces [] d]
   | .group k long body spec, inArg, hwf, _, rest => by
     rw [wfPat_group] at hwf
@@ -217,7 +233,8 @@ theorem next_nonplain (cc : CharClass) (hcc : CCAscii cc) (P : Profile) (hus : P
     rw [showPat_group, pieceOf_group]
     have hb : argB cc P (showPats body ++ ')' :: (showSpec spec ++ '}' :: rest)) [] =
         .ok (piecesOf [] body) (showSpec spec ++ '}' :: rest) := by
-      simpa using argB_pats cc hcc P hus body hbody [] (by simp) (showSpec spec ++ '}' :: rest) []
+      simpa using argB_pats cc hcc P hus hP body hbody [] (by simp) (showSpec spec ++ '}' :: rest)
+        (noParen_specTail spec rest) []
     have hargs : argsL cc P ('(' :: (showPats body ++ ')' :: (showSpec spec ++ '}' :: rest))) [] =
         .ok [piecesOf [] body] (showSpec spec ++ '}' :: rest) := by
       rw [argsL_arg cc P _ _ [] _ hb]
@@ -235,14 +252,15 @@ theorem next_nonplain (cc : CharClass) (hcc : CCAscii cc) (P : Profile) (hus : P
       rw [hre]
       exact next_named cc hcc P _ '(' _ _ spec rest (isName_group cc hcc P k long hk) (Or.inr (Or.inr rfl)) hargs hspec
 /-- the argument loop on a printed pattern list (pending ordinary text `pre`) up to its `)` -/
-theorem argB_pats (cc : CharClass) (hcc : CCAscii cc) (P : Profile) (hus : P.underscoreNames = true) :
+theorem argB_pats (cc : CharClass) (hcc : CCAscii cc) (P : Profile) (hus : P.underscoreNames = true)
+    (hP : P.doubledCloseParen = true) :
     ∀ (ps : List Pat), wfPats P.wordBits true ps = true → ∀ pre : List Char, pre.all nonSpecial = true →
-      ∀ (more : List Char) (acc : List Piece),
+      ∀ (more : List Char), NoParenHead more → ∀ (acc : List Piece),
         argB cc P (pre ++ (showPats ps ++ ')' :: more)) acc = .ok (acc ++ piecesOf pre ps) more
-  | [], _, pre, hpre, more, acc => by
+  | [], _, pre, hpre, more, hm, acc => by
     rw [showPats_nil, piecesOf_nil]
-    simpa using argB_plain cc P pre more acc hpre
-  | p :: ps, hwf, pre, hpre, more, acc => by
+    simpa using argB_plain cc P pre more acc hpre hm
+  | p :: ps, hwf, pre, hpre, more, hm, acc => by
     rw [wfPats_cons] at hwf
     simp only [Bool.and_eq_true] at hwf
     obtain ⟨hp, hps⟩ := hwf
@@ -254,18 +272,24 @@ theorem argB_pats (cc : CharClass) (hcc : CCAscii cc) (P : Profile) (hus : P.und
       rw [wfPat_lit] at hp
       have hns := wfLit_plain hp he
       rw [hc] at hns
-      have ih := argB_pats cc hcc P hus ps hps (pre ++ [c]) (all_nonSpecial_snoc hpre hns) more acc
+      have ih := argB_pats cc hcc P hus hP ps hps (pre ++ [c]) (all_nonSpecial_snoc hpre hns) more hm acc
       simp only [showPat_lit, showLit, he, hc]
       simpa using ih
     | none =>
       obtain ⟨hd, tl, hshape, hsp, hne⟩ := showPat_head P.wordBits true p (showPats ps ++ ')' :: more) hp hpc
-      have hn := next_nonplain cc hcc P hus p true hp hpc (showPats ps ++ ')' :: more)
-      have ih := argB_pats cc hcc P hus ps hps [] (by simp) more (acc ++ flushText pre ++ [pieceOf p])
+      have hn := next_nonplain cc hcc P hus hP p true hp hpc (showPats ps ++ ')' :: more)
+      have ih := argB_pats cc hcc P hus hP ps hps [] (by simp) more hm (acc ++ flushText pre ++ [pieceOf p])
       simp only [List.append_assoc]
       rw [argB_flush' cc P pre _ acc hpre (by rw [hshape]; exact hsp)]
-      rw [hshape] at hn ⊢
-      rw [argB_step cc P hd tl _ (hne rfl) _ _ hn]
-      simpa using ih
+      rcases hne with hne | ⟨l, hl, he⟩
+      · rw [hshape] at hn ⊢
+        rw [argB_step cc P hd tl _ hne _ _ hn]
+        simpa using ih
+      · subst hl
+        rw [wfPat_lit] at hp
+        rw [showPat_lit, argB_escape cc P hP l _ _ hp he]
+        rw [pieceOf_lit] at ih ⊢
+        simpa using ih
 end
 
 end Log4rs.Pattern.Parse
